@@ -108,6 +108,10 @@ class Judge:
             reach.append('text_over_64k_chars')
         if len(set(names)) < len(names):
             reach.append('same_path_twice')
+        if knobs.get('r_spelling') and not (rid == 'Html' and knobs.get('omit_r')):
+            sp = CW.spellings(rid)
+            if sp[knobs['r_spelling'] % len(sp)] != sp[0]:
+                reach.append('renderer_named_by_alias_or_reexport')
         # library channels on the first text (scenarios rotate texts, so every text gets there)
         t0 = texts[0]
         only = scn.get('only')          # set while shrinking: evaluate just the channel whose violation is being minimised
@@ -342,6 +346,18 @@ def shape_scenarios(corp, tier):
                         'seed': idx, 'batch': 'shapes', 'index': idx, 'cli_only': True, 'shape': 'small_then_large',
                         'knobs': {'bufsize': 8192, 'read_chunk': 8192, 'write_chunk': [8192, 4096, 64][j], 'out_bufsize': [8192, 8192, 512][(i + j) % 3],
                                   'locale': 'utf-8', 'stdout_encoding': 'utf-8', 'entry': ['cli.main', '__main__'][(i + j) % 2], 'omit_r': False}})
+    # every dotted path under which -r reaches each renderer class (old aliases, package-level re-exports, names imported
+    # into other modules): one and two files, both entry points, each argv shape in turn
+    for rid in W.BUNDLED_IDS:
+        sp = CW.spellings(rid)
+        for k in range(1, len(sp)):
+            for j, texts in enumerate(([ordinary[(idx * 5) % len(ordinary)]], [ordinary[(idx * 3 + 1) % len(ordinary)], 'caf\u00e9 *x*\n'])):
+                idx += 1
+                out.append({'R': rid, 'texts': texts, 'names': ['f%d.md' % n for n in range(len(texts))], 'fault': None,
+                            'seed': idx, 'batch': 'shapes', 'index': idx, 'cli_only': True, 'shape': 'r_spelling',
+                            'knobs': {'bufsize': 8192, 'read_chunk': 8192, 'write_chunk': [8192, 5][j], 'out_bufsize': [8192, 8][j],
+                                      'locale': 'utf-8', 'stdout_encoding': 'utf-8', 'entry': ['cli.main', '__main__'][(k + j) % 2],
+                                      'omit_r': False, 'r_spelling': k, 'argv_shape': CW.ARGV_SHAPES[(k + j) % len(CW.ARGV_SHAPES)]}})
     return out
 
 
@@ -498,7 +514,7 @@ REAL_ENVS = [
     ({'LC_ALL': 'C', 'LANG': 'C', 'PYTHONCOERCECLOCALE': '0', 'PYTHONUTF8': '0'}, 'ascii', 'ascii', [], 'devnull'),
     ({'PYTHONIOENCODING': 'latin-1'}, 'utf-8', 'latin-1', [], 'devnull'),
     ({'COLUMNS': '20', 'LINES': '5', 'TERM': 'dumb', 'NO_COLOR': '1'}, 'utf-8', 'utf-8', ['-O'], 'closed'),
-    ({'HOME': '/nonexistent', 'TZ': 'Pacific/Kiritimati', 'LANG': 'tr_TR.UTF-8'}, 'utf-8', 'utf-8', ['-X', 'utf8'], 'pipe'),
+    ({'HOME': '/nonexistent', 'TZ': 'Pacific/Kiritimati', 'LANG': 'tr_TR.UTF-8'}, 'utf-8', 'utf-8', ['-X', 'utf8', '-u'], 'pipe'),   # -u: unbuffered stdout, sys.stdout.buffer is the raw FileIO
     ({'PYTHONWARNINGS': 'ignore', 'PYTHONDONTWRITEBYTECODE': '1'}, 'utf-8', 'utf-8', ['-OO', '-S'], 'devnull'),
 ]
 
@@ -525,7 +541,7 @@ def real_runs(judge, seed, corp, n):
                 os.makedirs(os.path.dirname(path), exist_ok=True)
                 with open(path, 'wb') as f:
                     f.write(t.encode('utf-8'))
-            env = {k: v for k, v in os.environ.items() if k not in ('LC_ALL', 'LANG', 'LC_CTYPE', 'PYTHONIOENCODING', 'PYTHONUTF8')}
+            env = {k: v for k, v in os.environ.items() if k not in ('LC_ALL', 'LANG', 'LC_CTYPE', 'PYTHONIOENCODING', 'PYTHONUTF8', 'PYTHONUNBUFFERED')}
             env.update(envx)
             env['PYTHONPATH'] = core.REPO
             env['PYTHONDONTWRITEBYTECODE'] = '1'
@@ -549,32 +565,44 @@ def real_runs(judge, seed, corp, n):
                     files = {nm: t.encode('utf-8') for nm, t in zip(scn2['names'], scn2['texts'])}
                     cscn = {'R': scn2['R'], 'files': [[nm, files[nm]] for nm in files], 'argv_files': scn2['names'],
                             'knobs': scn2['knobs'], 'fault': None, 'seed': scn2['seed']}
-                    if not judge.check_seam():
-                        # The tool does not go through the seams (it reads or writes some other way): no simulated run to
-                        # compare with. Fall back to judging the REAL run against the library reference, strictly.
+                    def judge_real():
+                        """The REAL run against the library reference, strictly (fault-free scenario, real files, real tool):
+                        appends a violation and returns True when the real tool's output is not the reference."""
                         by_name = {}
                         for nm, t in zip(scn2['names'], scn2['texts']):
                             by_name[nm] = t
                         refs = [judge.ref(scn2['R'], by_name[nm]) for nm in scn2['names']]
+                        if not all(r[0] == 'ok' for r in refs):
+                            return False
+                        expect = ''.join(r[1] for r in refs)
+                        good = so == expect.encode('utf-8')
+                        if not good:
+                            try:
+                                good = so.decode(scn2['knobs']['stdout_encoding']) == expect
+                            except (UnicodeDecodeError, LookupError):
+                                good = False
+                        if good and p2.returncode == 0:
+                            return False
+                        real_viols.append({'property': PROP, 'failing': {'kind': 'CHANNEL', 'channel': 'cli_real', 'R': scn2['R'],
+                                                                           'text_sha': _sha(scn2['texts'][0]), 'text': scn2['texts'][0]},
+                                           'expected': ['bytes', expect.encode('utf-8').hex()], 'actual': ['bytes', so.hex()],
+                                           'klass': 'cli_real', 'scenario': scn2, 'seed': seed, 'tier': None, 'batch': 'real', 'index': scn2['index'],
+                                           'detail': {'returncode': p2.returncode, 'stderr': se.decode('utf-8', 'replace')[-300:]}})
+                        return True
+                    if not judge.check_seam():
+                        # The tool does not go through the seams (it reads or writes some other way): no simulated run to
+                        # compare with. Fall back to judging the REAL run against the library reference, strictly.
                         validated += 1
-                        if all(r[0] == 'ok' for r in refs):
-                            expect = ''.join(r[1] for r in refs)
-                            good = so == expect.encode('utf-8')
-                            if not good:
-                                try:
-                                    good = so.decode(scn2['knobs']['stdout_encoding']) == expect
-                                except (UnicodeDecodeError, LookupError):
-                                    good = False
-                            if not good or p2.returncode != 0:
-                                real_viols.append({'property': PROP, 'failing': {'kind': 'CHANNEL', 'channel': 'cli_real', 'R': scn2['R'],
-                                                                                   'text_sha': _sha(scn2['texts'][0]), 'text': scn2['texts'][0]},
-                                                   'expected': ['bytes', expect.encode('utf-8').hex()], 'actual': ['bytes', so.hex()],
-                                                   'klass': 'cli_real', 'scenario': scn2, 'seed': seed, 'tier': None, 'batch': 'real', 'index': scn2['index'],
-                                                   'detail': {'returncode': p2.returncode, 'stderr': se.decode('utf-8', 'replace')[-300:]}})
+                        judge_real()
                         continue
                     sim = _fork(lambda: CW.cli_channel(cscn))
                     validated += 1
                     if not isinstance(sim, dict) or sim['sink'] != so or (sim['outcome'][0] == 'ok') != (p2.returncode == 0):
+                        # Simulated and real runs differ. If the REAL run itself contradicts the library reference, that is a
+                        # violation shown by the real tool on real files (reported as such); only a real run that is right
+                        # next to a simulated one that differs means the stub misrepresents something (harness error).
+                        if judge_real():
+                            continue
                         bad.append({'scenario': scn2, 'real_stdout': so.hex(), 'real_rc': p2.returncode, 'real_stderr': se.decode('utf-8', 'replace')[-400:],
                                     'sim': {'sink': sim['sink'].hex(), 'outcome': list(sim['outcome'])} if isinstance(sim, dict) else list(sim)})
                 procs = []
@@ -599,6 +627,7 @@ def real_replay(judge, scn):
             with open(path, 'wb') as f:
                 f.write(t.encode('utf-8'))
         env = dict(os.environ, PYTHONPATH=core.REPO, PYTHONDONTWRITEBYTECODE='1')
+        env.pop('PYTHONUNBUFFERED', None)
         knobs = dict(scn['knobs'], omit_r=False)
         argv = [sys.executable, '-m', 'mistletoe'] + CW.build_argv(scn['R'], scn['names'], knobs)
         p = subprocess.run(argv, cwd=d, env=env, stdin=subprocess.DEVNULL, stdout=subprocess.PIPE, stderr=subprocess.PIPE, timeout=300)
